@@ -32,7 +32,9 @@ TRUSTED = [
     "sys.setprofile call/return events as the measure of activations; a bytes subclass counting slices taken inside _decode_labels_at_offset as the measure of label reads",
     "logging (log.debug / _log_exception_debug) is not modelled; the harness empties incoming._seen_logs when it exceeds 2000 entries: that "
     "module-level dict keeps one exc_info (traceback -> frames -> datagram) per distinct message text and grows without bound under hostile "
-    "traffic -- memory is outside C02's per-datagram claim and is NOT checked here",
+    "traffic (named limit DC02a: 20 KB per malformed datagram, for ever; repro and patch proposal in notes/fixes/DC02a-seen-logs*) -- memory "
+    "retained across datagrams is outside C02's per-datagram sentence: the stream `seen-logs` only measures it (evidence note) and checks that "
+    "decoding never raises with the memo full",
     "the optional Cython build (incoming.pxd: unsigned int offsets/counters) is not exercised: the pure-Python module is what runs",
     "every fifth datagram is decoded as the listener does, DNSIncoming(data, (addr, port), scope_id, now), and must give the same observation; "
     "source/scope_id/now are otherwise not modelled (scope_id is not compared)",
@@ -290,8 +292,8 @@ def _observe(data: bytes, count_reads=False, listener_args=False, steps=False):
         sys.setprofile(None)
         sys.settrace(None)
         sys.setrecursionlimit(old_limit)
-    # `_seen_logs` keeps one exc_info per distinct message text for ever (finding D24, notes/fixes/D24.diff): the harness bounds its own
-    # memory by emptying the dict; the growth itself is measured and reported by `seen_logs_stream`
+    # `_seen_logs` keeps one exc_info per distinct message text for ever (named limit DC02a, notes/fixes/DC02a-seen-logs.diff): the harness
+    # bounds its own memory by emptying the dict; the growth itself, and decoding with a full memo, are the business of `seen_logs_stream`
     if len(inc._seen_logs) > 2000:
         inc._seen_logs.clear()
     out = {"status": status, "exc": exc, "names": cnt[0], "acts": cnt[1], "depth": cnt[3], "obj": obj}
@@ -1452,6 +1454,57 @@ def utf8_stream(res, rng, tier, driver_ok):
     res.count("stream:utf8", len(cases))
 
 
+def seen_logs_stream(res, tier):
+    """`incoming._seen_logs` (second review, finding 3): decode a run of malformed datagrams with pairwise distinct exception texts
+    *without* the harness emptying the memo in between.  (i) O: none of them may raise, whatever the memo holds by then (a cap that
+    raises, an eviction that trips over its own iteration ... would show here and nowhere else, because `observe` empties the dict);
+    (ii) observation, not a C02 verdict: how many entries and how many bytes stay behind per datagram.  The property's sentence is about
+    each datagram's result and work; memory retained *across* datagrams is outside it (DESIGN §6.6) -- reported as the named limit
+    `DC02a` (notes/fixes/DC02a-seen-logs-repro.py, proposed patch notes/fixes/DC02a-seen-logs.diff)."""
+    import gc
+    import tracemalloc
+
+    inc = impl()["inc"]
+    memo = getattr(inc, "_seen_logs", None)
+    n = 600 if tier == "quick" else 3000
+    if memo is not None:
+        memo.clear()
+    gc.collect()
+    tracemalloc.start()
+    base = tracemalloc.get_traced_memory()[0]
+    for i in range(n):
+        body = b"\x01a" * i + b"\x80"  # reserved label type at offset 12 + 2i: a distinct message text per datagram
+        pkt = (struct.pack(">HHHHHH", i, 0, 1, 0, 0, 0) + body + b"\x00" * 9000)[:8966]
+        res.evaluations += 1
+        try:
+            m = inc.DNSIncoming(pkt, *LISTENER_ARGS)
+            m.answers()
+            if m.valid:
+                res.disagree("seen-logs", {"hex": C.hx(pkt[:12 + 2 * i + 4]), "len": len(pkt)}, "valid", "a reserved label type makes the message invalid")
+        except Exception as e:  # noqa: BLE001
+            res.violate("C02:escape:%s" % exc_name(e), "%s escapes while decoding the %d-th of a run of malformed datagrams with distinct error texts "
+                        "(incoming._seen_logs holds %s entries)" % (exc_name(e), i + 1, len(memo) if memo is not None else "?"),
+                        {"hex": C.hx(pkt), "len": len(pkt), "stream": "seen-logs", "run": "datagram i = header(id=i, 1 question) + i x 01 61 + 80, zero-padded to 8966 bytes; i = 0..%d" % i})
+            break
+    m = pkt = body = None
+    gc.collect()
+    retained = tracemalloc.get_traced_memory()[0] - base
+    tracemalloc.stop()
+    entries = len(memo) if memo is not None else 0
+    res.count("stream:seen-logs", n)
+    res.streams["seen-logs-entries"] = entries
+    res.streams["seen-logs-retained-kb"] = retained // 1000
+    unbounded = entries >= n or retained > 20 * n * 100
+    res.count("seen-logs:growth-%s" % ("unbounded" if unbounded else "bounded"))
+    res.notes.append("named limit DC02a (memory across datagrams, outside C02's sentence): after %d malformed datagrams with distinct error texts incoming._seen_logs "
+                     "holds %d entries and %.1f MB stay allocated (%.1f KB per datagram) -- %s"
+                     % (n, entries, retained / 1e6, retained / 1e3 / n,
+                        "UNBOUNDED: one exc_info (traceback -> frames -> the datagram) per distinct text, for ever; patch proposal notes/fixes/DC02a-seen-logs.diff"
+                        if unbounded else "bounded"))
+    if memo is not None:
+        memo.clear()
+
+
 def guard_stream(res, driver_ok):
     """the listener's size guard: lengths around 8966 against the leaf and the real `datagram_received`"""
     from zeroconf import _listener as L
@@ -1672,6 +1725,7 @@ def run(ctx):
     if chunk:
         driver_ok = process(res, chunk, driver_ok, base)
     interleave_stream(res, rng, tier, driver_ok)
+    seen_logs_stream(res, tier)
     utf8_stream(res, rng, tier, driver_ok)
     guard_stream(res, driver_ok)
     res.notes.append("largest message on which the library agreed with the strict parser: %d records, %d questions; deepest agreeing pointer chain: nesting %d "
